@@ -38,6 +38,11 @@ type C05Scenario struct {
 	PHRetries    bool     `json:"ph_retries,omitempty"`    // the panic handler re-enters the bus: it publishes a retry event (id+1000) of the same type
 	// PHNil (only without PanicHandler): "no panic handler" is said explicitly - WithPanicHandler(nil) or SetPanicHandler(nil)
 	PHNil int `json:"ph_nil,omitempty"` // 0 not mentioned, 1 option with nil, 2 setter with nil
+	// ViaReplay: the bus is persistent (MemoryStore) and the registrations are resumable subscriptions
+	// (SubscribeWithReplay with the same options) in their live phase: their handlers are wrapped by the library
+	ViaReplay bool `json:"via_replay,omitempty"`
+	// CancelThenPanic: publishes carry a cancellable context, and a panicking invocation cancels it first
+	CancelThenPanic bool `json:"cancel_then_panic,omitempty"`
 }
 
 type customPanic struct{ N int }
@@ -112,6 +117,8 @@ func genC05(rt *rapid.T) core.Scenario {
 	if !sc.PanicHandler {
 		sc.PHNil = rapid.IntRange(0, 2).Draw(rt, "phNil")
 	}
+	sc.ViaReplay = !sc.ViaAny && rapid.IntRange(0, 4).Draw(rt, "viaReplay") == 4
+	sc.CancelThenPanic = !sc.ViaReplay && rapid.IntRange(0, 3).Draw(rt, "cancelThenPanic") == 3
 	sc.ShareOpts = rapid.IntRange(0, 2).Draw(rt, "shareOpts") == 2
 	sc.Tape = core.DrawTape(rt, 300)
 	return sc
@@ -130,6 +137,7 @@ func (sc *C05Scenario) Execute(t *testing.T) *core.Outcome {
 	out := &core.Outcome{}
 	var w *World
 	ops := allTypes[sc.Type]
+	cancelledIDs := map[int]bool{} // events whose context a panicking handler cancelled
 	invs := map[int][]int{}   // reg index -> event ids received
 	calls := map[int]int{}    // reg index -> number of invocations
 	var phCalls []c05PH
@@ -165,8 +173,12 @@ func (sc *C05Scenario) Execute(t *testing.T) *core.Outcome {
 		if sc.Obs {
 			opts = append(opts, eventbus.WithObservability(nopObs{}))
 		}
+		if sc.ViaReplay {
+			opts = append(opts, eventbus.WithStore(eventbus.NewMemoryStore()))
+		}
 		w = NewWorld(opts...)
 		w.ShareOptions = sc.ShareOpts
+		cancelOf := map[int]context.CancelFunc{}
 		w.OnInvoke = func(ti, fn, uid int, ctx context.Context, id int) {
 			ri := regOfFn[fn]
 			r := sc.Regs[ri]
@@ -178,17 +190,42 @@ func (sc *C05Scenario) Execute(t *testing.T) *core.Outcome {
 			for _, p := range r.PanicOn {
 				if p == k {
 					ht := ops.PlainHT
-					if isCtxFn(fn) {
+					if isCtxFn(fn) && !sc.ViaReplay {
 						ht = ops.CtxHT
 					}
 					injected = append(injected, c05PH{EvID: id, HT: ht, Reg: ri, Value: r.Value})
 					w.Rec.Add("panic", ri, id, "")
+					if c := cancelOf[id]; c != nil {
+						c() // the handler gives up on the request, then fails: still a panic like any other
+						cancelledIDs[id] = true
+					}
 					panic(panicValue(r.Value, id))
 				}
 			}
 			w.Rec.Add("exit", ri, id, "")
 		}
-		for _, r := range sc.Regs {
+		for ri, r := range sc.Regs {
+			if sc.ViaReplay {
+				fn := r.Fn
+				var so []eventbus.SubscribeOption
+				if r.Opts.Once {
+					so = append(so, eventbus.Once())
+				}
+				if r.Opts.Async {
+					so = append(so, eventbus.Async())
+				}
+				if r.Opts.Seq {
+					so = append(so, eventbus.Sequential())
+				}
+				if r.Opts.Filter != 0 {
+					so = append(so, ops.Filt(w, fn, r.Opts.Filter))
+				}
+				if err := ops.SubReplay(w, context.Background(), fmt.Sprintf("c05-%d", ri), func(id int) { w.OnInvoke(sc.Type, fn, 0, nil, id) }, so...); err != nil {
+					out.HarnessErr = err.Error()
+					return
+				}
+				continue
+			}
 			if err := w.Subscribe(sc.Type, r.Fn, r.Opts); err != nil {
 				out.HarnessErr = err.Error()
 				return
@@ -202,10 +239,15 @@ func (sc *C05Scenario) Execute(t *testing.T) *core.Outcome {
 		}
 		for _, id := range sc.Pubs {
 			w.Rec.Add("pub", id, 0, "")
+			pctx := context.Background()
+			if sc.CancelThenPanic {
+				c, cancel := context.WithCancel(pctx)
+				pctx, cancelOf[id] = c, cancel
+			}
 			if sc.ViaAny {
-				ops.PubAny(w, context.Background(), id)
+				ops.PubAny(w, pctx, id)
 			} else {
-				ops.Pub(w, context.Background(), id)
+				ops.Pub(w, pctx, id)
 			}
 			pubReturned++
 			if sc.WaitEach {
@@ -248,7 +290,7 @@ func (sc *C05Scenario) Execute(t *testing.T) *core.Outcome {
 	}
 	// expected deliveries: static registrations, so each registration receives every accepted event once
 	// (a Once registration only the first accepted one) whatever the other handlers do
-	expectCount := 0
+	expectCount, onceMaybeUsedUp := 0, 0
 	allPubs := append(append([]int{}, sc.Pubs...), retries...)
 	for ri, r := range sc.Regs {
 		var want []int
@@ -262,6 +304,42 @@ func (sc *C05Scenario) Execute(t *testing.T) *core.Outcome {
 			want = append(want, id)
 		}
 		got := invs[ri]
+		if sc.CancelThenPanic {
+			// deliveries of an event whose context a handler cancelled are indeterminate (later handlers are
+			// skipped); everything else arrives exactly once, nothing twice
+			seen, wanted := map[int]int{}, map[int]int{}
+			for _, id := range allPubs {
+				if filterAccepts(r.Opts.Filter, id) {
+					wanted[id]++ // two panics on one event publish the same retry id twice
+				}
+			}
+			for _, id := range got {
+				seen[id]++
+				if seen[id] > wanted[id] {
+					out.V("delivery-lost-or-duplicated", "registration %d received event %d %d times, published %d times", ri, id, seen[id], wanted[id])
+				}
+			}
+			if r.Opts.Once {
+				if len(got) > 1 {
+					out.V("delivery-lost-or-duplicated", "once registration %d received %v", ri, got)
+				}
+			} else {
+				for _, id := range want {
+					if !cancelledIDs[id] && seen[id] != wanted[id] {
+						out.V("delivery-lost-or-duplicated", "registration %d (%+v) received event %d %d times although its context was never cancelled", ri, r.Opts, id, seen[id])
+					}
+				}
+			}
+			if !r.Opts.Once {
+				expectCount++
+			} else if len(got) == 0 {
+				// not invoked: still subscribed - unless it was claimed for an event whose context was then
+				// cancelled before its (asynchronous) delivery started, which the count below allows for
+				expectCount++
+				onceMaybeUsedUp++
+			}
+			continue
+		}
 		if r.Opts.Once && len(retries) > 0 {
 			// with nested retry publishes the Once handler fires for whichever accepted event reaches it first
 			if len(want) > 0 && len(got) != 1 {
@@ -278,7 +356,7 @@ func (sc *C05Scenario) Execute(t *testing.T) *core.Outcome {
 			expectCount++
 		}
 	}
-	if finalCount != expectCount {
+	if finalCount > expectCount || finalCount < expectCount-onceMaybeUsedUp {
 		out.V("count-after-panics", "HandlerCount=%d at the end, expected %d (fired Once handlers stay retired, others stay subscribed)", finalCount, expectCount)
 	}
 	// panic handler: exactly once per injected panic with event, handler type, value
@@ -323,8 +401,11 @@ func panicValueMatches(kind, id int, got any) bool {
 	case 7:
 		return got == panickyErr{id}
 	case 1:
+		if _, other := got.(panickyErr); other {
+			return false // another registration's value on the same event; its Error() panics by design
+		}
 		e, ok := got.(error)
-		return ok && e.Error() == "boom"
+		return ok && e != nil && !isNilPtr(got) && e.Error() == "boom"
 	case 2:
 		return got == customPanic{id}
 	case 3:
@@ -336,6 +417,11 @@ func panicValueMatches(kind, id int, got any) bool {
 		return got == nil || (ok && errors.As(e, &pn))
 	}
 	return got == fmt.Sprintf("panic-%d", id)
+}
+
+func isNilPtr(v any) bool {
+	rv := reflect.ValueOf(v)
+	return rv.Kind() == reflect.Pointer && rv.IsNil()
 }
 
 func sameMultiset(a, b []int) bool {
